@@ -8,10 +8,10 @@ Local Open Scope N_scope.
 (* ------------------------------------------------------------------ a property of kernels closed under the two primitives
    the reader uses is kept by the reader *)
 Section Closed.
-  Variable P : kst -> Prop.
-  Hypothesis Padd : forall k t p m k' wd, P k -> kadd_watch k t p m = Some (k', wd) -> P k'.
-  Hypothesis Prm : forall k wd, P k -> P (krm_watch k wd).
   Variable C : cfg.
+  Variable P : kst -> Prop.
+  Hypothesis Padd : forall k t p k' wd, P k -> kadd_watch k t p (c_mask C) = Some (k', wd) -> P k'.
+  Hypothesis Prm : forall k wd, P k -> P (krm_watch k wd).
 
   Lemma cl_add_watch r k t p r' k' wd : P k -> add_watch C r k t p = Some (r', k', wd) -> P k'.
   Proof.
@@ -162,7 +162,7 @@ Proof.
 Qed.
 
 Lemma kwf_read_batch C t b r k acc r' k' out : kwf k -> read_batch C t (r, k, acc) b = Done (r', k', out) -> kwf k'.
-Proof. apply (cl_read_batch kwf kwf_add kwf_rm). Qed.
+Proof. apply (cl_read_batch C kwf (fun k t p => kwf_add k t p (c_mask C)) kwf_rm). Qed.
 
 Lemma kwf_drained k : kwf k -> kwf (Contract.kdrained k).
 Proof. intros H. exact H. Qed.
